@@ -15,6 +15,7 @@ cd "$WT" || exit 2
 git checkout -q -- . || exit 2
 echo "worktree at $(git rev-parse --short HEAD)"
 cc=$(grep -m1 -E '(g\+\+|clang\+\+) ' "$S/demo$n.cpp" | sed -e 's|^[ /*#]*||' -e 's|[ */]*$||' -e 's|^[A-Za-z ]*: *||')
+[ -n "${DEMO_CC:-}" ] && cc=$DEMO_CC
 echo "demo compile: $cc"
 runs() {  # prints the number of failing runs out of 3
   f=0; last=0
